@@ -41,7 +41,11 @@ func NewConverter(opts *ConvertOptions) *Converter {
 	if opts == nil {
 		opts = DefaultOptions()
 	}
+	return &Converter{md: newMarkdown(opts), opts: opts}
+}
 
+// newMarkdown 按选项构建解析器（解析器启用的扩展必须与渲染时使用的选项一致）
+func newMarkdown(opts *ConvertOptions) goldmark.Markdown {
 	extensions := []goldmark.Extender{}
 	if opts.EnableGFM {
 		// GFM = 自动链接 + 删除线 + 任务列表 + 表格；表格只在 EnableTables 时启用，
@@ -62,14 +66,12 @@ func NewConverter(opts *ConvertOptions) *Converter {
 		), safeMathBlocks{}) // 块级公式由本包的解析器处理，见 math_block_parser.go
 	}
 
-	md := goldmark.New(
+	return goldmark.New(
 		goldmark.WithExtensions(extensions...),
 		goldmark.WithParserOptions(
 			parser.WithAutoHeadingID(),
 		),
 	)
-
-	return &Converter{md: md, opts: opts}
 }
 
 // ConvertString 转换字符串内容为Word文档
@@ -79,26 +81,31 @@ func (c *Converter) ConvertString(content string, opts *ConvertOptions) (*docume
 
 // ConvertBytes 转换字节数据为Word文档
 func (c *Converter) ConvertBytes(content []byte, opts *ConvertOptions) (*document.Document, error) {
-	if opts != nil {
-		c.opts = opts
+	// 随调用传入的选项只对本次调用有效：不改写转换器自身的选项，
+	// 解析器也按这些选项构建（否则解析与渲染使用的选项不一致，例如表格被解析却不被渲染）
+	if opts != nil && opts != c.opts {
+		return convert(newMarkdown(opts), opts, content)
 	}
+	return convert(c.md, c.opts, content)
+}
 
+func convert(md goldmark.Markdown, opts *ConvertOptions, content []byte) (*document.Document, error) {
 	// 创建新的Word文档
 	doc := document.New()
 
 	// 应用页面设置
-	if c.opts.PageSettings != nil {
+	if opts.PageSettings != nil {
 		// 这里可以后续扩展，使用现有的页面设置API
 	}
 
 	// 解析Markdown
 	reader := text.NewReader(content)
-	astDoc := c.md.Parser().Parse(reader)
+	astDoc := md.Parser().Parse(reader)
 
 	// 创建渲染器并转换
 	renderer := &WordRenderer{
 		doc:    doc,
-		opts:   c.opts,
+		opts:   opts,
 		source: content,
 	}
 
@@ -118,16 +125,21 @@ func (c *Converter) ConvertFile(mdPath, docxPath string, options *ConvertOptions
 		return NewConversionError("FileRead", "failed to read markdown file", 0, 0, err)
 	}
 
-	// 设置图片基础路径（如果未指定）
+	// 设置图片基础路径（如果未指定）：只对这个文件有效，写在选项的副本上，
+	// 不改动调用者的选项对象，也不改动转换器自身的选项（否则批量转换时后面的文件沿用第一个文件的目录）
+	md := c.md
 	if options == nil {
 		options = c.opts
+	} else if options != c.opts {
+		md = newMarkdown(options)
 	}
-	if options.ImageBasePath == "" {
-		options.ImageBasePath = filepath.Dir(mdPath)
+	effective := *options
+	if effective.ImageBasePath == "" {
+		effective.ImageBasePath = filepath.Dir(mdPath)
 	}
 
 	// 转换内容
-	doc, err := c.ConvertBytes(content, options)
+	doc, err := convert(md, &effective, content)
 	if err != nil {
 		return err
 	}
